@@ -273,6 +273,17 @@ func runC13(r *Run) {
 						existsIf = &cis[0]
 					}
 				}
+				hasMsgParam := false
+				for _, pa := range fn.Params[1:] {
+					if pt, ok := pa.Type().(*types.Pointer); ok {
+						if n, ok := pt.Elem().(*types.Named); ok && n.Obj().Name() == "Message" {
+							hasMsgParam = true
+						}
+					}
+				}
+				if existsIf == nil && !hasMsgParam {
+					terminal.Violation(fn, instrPos(dc), "removal without existence test", "a terminator that is given an ID must report not-exists (and emit nothing) when the ID is not registered: the handler call is not guarded by the result of a lookup of that ID")
+				}
 				if len(hcalls) == 0 {
 					terminal.Violation(fn, instrPos(dc), "removal without event", "the entry is removed but no handler event is emitted: the transaction never receives its terminal event")
 				}
